@@ -162,4 +162,59 @@ LegacyStep(lits, gpb, st, m) ==
 (* gpb: bytes of the dictionary position of a global match (2 on the pinned tree, 4 with fix C02-5) *)
 WriteLegacy(ms, lits, gpb) == LET step(st, m) == LegacyStep(lits, gpb, st, m)
                          IN FoldLeft(step, [bytes |-> <<>>, lp |-> 0], ms).bytes
+
+(* ------------------------------------------------------------------ reference byte encoding *)
+(* The encoding written by reference_encoding.rs (ReferenceEncoder::encode_* and                 *)
+(* compress_record_reference), read back HERE: the crate has no decoder for it, so this          *)
+(* definition is the only reader.  First byte: type in the low 3 bits, a 5-bit field f above.    *)
+(* Global matches as written with g_offset_bits = 24, g_max_short_len = 32 (what PaZipCompressor  *)
+(* passes).  A decoded literal carries its bytes; RLE is a copy from distance 1.                  *)
+LEU(bytes, q, n) == LET f[i \in 0..n] == IF i = 0 THEN 0 ELSE f[i - 1] + bytes[q + i] * (256 ^ (i - 1)) IN f[n]
+RECURSIVE RefVarAt(_, _, _, _)
+RefVarAt(bytes, q, mul, acc) ==                   \* var_size_t: 7 bits per byte, low group first
+    IF q + 1 > Len(bytes) \/ mul > 2097152 THEN [ok |-> FALSE, v |-> 0, p |-> q]
+    ELSE LET b == bytes[q + 1] IN
+         IF b >= 128 THEN RefVarAt(bytes, q + 1, mul * 128, acc + (b - 128) * mul)
+         ELSE [ok |-> TRUE, v |-> acc + b * mul, p |-> q + 1]
+RefVar(bytes, q) == RefVarAt(bytes, q, 1, 0)
+
+RM(k, d, len, pos, data) == [k |-> k, d |-> d, len |-> len, pos |-> pos, data |-> data]
+RefFail(p) == [ok |-> FALSE, m |-> RM("lit", 0, 0, 0, <<>>), p |-> p]
+RefGot(m, p) == [ok |-> TRUE, m |-> m, p |-> p]
+
+RefDecodeOne(bytes, p) ==
+    IF p + 1 > Len(bytes) THEN RefFail(p)
+    ELSE LET t == bytes[p + 1] % 8
+             f == bytes[p + 1] \div 8
+             has(n) == p + n <= Len(bytes)
+         IN CASE t = 0 -> IF has(2 + f) THEN RefGot(RM("lit", 0, f + 1, 0, SubSeq(bytes, p + 2, p + 2 + f)), p + 2 + f) ELSE RefFail(p)
+              [] t = 1 -> IF ~has(4) THEN RefFail(p)
+                          ELSE IF f < 31 THEN RefGot(RM("glob", 0, f + 6, LEU(bytes, p + 1, 3), <<>>), p + 4)
+                          ELSE LET v == RefVar(bytes, p + 4) IN
+                               IF v.ok THEN RefGot(RM("glob", 0, v.v + 33, LEU(bytes, p + 1, 3), <<>>), v.p) ELSE RefFail(p)
+              [] t = 2 -> RefGot(RM("rle", 1, f + 2, 0, <<>>), p + 1)
+              [] t = 3 -> RefGot(RM("near", (f \div 4) + 2, (f % 4) + 2, 0, <<>>), p + 1)
+              [] t = 4 -> IF has(2) THEN RefGot(RM("far1s", bytes[p + 2] + 2, f + 2, 0, <<>>), p + 2) ELSE RefFail(p)
+              [] t = 5 -> IF has(3) THEN RefGot(RM("far2s", LEU(bytes, p + 1, 2) + 258, f + 2, 0, <<>>), p + 3) ELSE RefFail(p)
+              [] t = 6 -> IF f < 31
+                          THEN IF has(3) THEN RefGot(RM("far2l", LEU(bytes, p + 1, 2), f + 34, 0, <<>>), p + 3) ELSE RefFail(p)
+                          ELSE LET v == RefVar(bytes, p + 1) IN
+                               IF v.ok /\ v.p + 2 <= Len(bytes) THEN RefGot(RM("far2l", LEU(bytes, v.p, 2), v.v + 65, 0, <<>>), v.p + 2) ELSE RefFail(p)
+              [] t = 7 -> IF f < 31
+                          THEN IF has(4) THEN RefGot(RM("far3l", LEU(bytes, p + 1, 3), f + 5, 0, <<>>), p + 4) ELSE RefFail(p)
+                          ELSE LET v == RefVar(bytes, p + 1) IN
+                               IF v.ok /\ v.p + 3 <= Len(bytes) THEN RefGot(RM("far3l", LEU(bytes, v.p, 3), v.v + 36, 0, <<>>), v.p + 3) ELSE RefFail(p)
+
+(* the whole record: decode and apply, one match after the other *)
+RECURSIVE RefApplyFrom(_, _, _, _)
+RefApplyFrom(bytes, p, out, dict) ==
+    IF p >= Len(bytes) THEN [ok |-> TRUE, out |-> out]
+    ELSE LET r == RefDecodeOne(bytes, p) IN
+         IF ~r.ok THEN [ok |-> FALSE, out |-> out]
+         ELSE CASE r.m.k = "lit"  -> RefApplyFrom(bytes, r.p, out \o r.m.data, dict)
+                [] r.m.k = "glob" -> IF r.m.pos + r.m.len > Len(dict) THEN [ok |-> FALSE, out |-> out]
+                                     ELSE RefApplyFrom(bytes, r.p, out \o SubSeq(dict, r.m.pos + 1, r.m.pos + r.m.len), dict)
+                [] OTHER          -> IF r.m.d < 1 \/ r.m.d > Len(out) THEN [ok |-> FALSE, out |-> out]
+                                     ELSE RefApplyFrom(bytes, r.p, CopyCF(out, r.m.d, r.m.len), dict)
+RefApply(bytes, dict) == RefApplyFrom(bytes, 0, <<>>, dict)
 =============================================================================
